@@ -177,7 +177,7 @@ Lemma resize_receive_buffer_frames n : frames (resize_receive_buffer n).
 Proof.
   intros s ev. unfold resize_receive_buffer. wp_prims. destruct (rbuf_len s =? n); [wp_prims; apply fr_refl|].
   match goal with |- context [let '(sz, sf) := ?e in _] => destruct e as [sz sf] end.
-  wp_prims. fr_triv.
+  destruct (negb _); wp_prims; [apply fr_refl|fr_triv].
 Qed.
 
 Lemma apply_opts_frames fuel : forall d, frames (apply_opts fuel d).
